@@ -388,13 +388,16 @@ TrCxhDigest == IsEv("cxh.digest") /\ LET ev == T[l] IN
 TrUtilFromHex == IsEv("util.from_hex") /\ LET ev == T[l] IN Step(objs, <<BytesFromHex(ev.str)>>, <<ev.out>>)
 TrUtilToHex == IsEv("util.to_hex") /\ LET ev == T[l] IN Step(objs, <<HexEnc(ev["in"], ev.upper = 1)>>, <<ev.out>>)
 TrUtilFromData == IsEv("util.from_data") /\ LET ev == T[l] IN Step(objs, <<ev["in"]>>, <<ev.out>>)
+\* ascon_clean: the named range is zero afterwards, every other byte keeps its value
+TrUtilClean == IsEv("util.clean") /\ LET ev == T[l]  d == ev["in"] IN
+  Step(objs, <<[i \in 1..Len(d) |-> IF i > ev.off /\ i <= ev.off + ev.n THEN 0 ELSE d[i]], 1>>, <<ev.out, ev.guard>>)
 TrHexTo == IsEv("hex.to") /\ LET ev == T[l]  r == BytesToHex(ev["in"], ev.space, ev.upper = 1) IN
   Step(objs, <<r.ret, r.out, 1, 1>>, <<ev.ret, ev.out, ev.guard, IF r.ret = -1 THEN 1 ELSE ev.tail_untouched>>)
 TrHexFrom == IsEv("hex.from") /\ LET ev == T[l]  r == HexDecSpec(ev.str, ev.space) IN
   Step(objs, <<r.ret, r.out, 1>>, <<ev.ret, ev.out, ev.guard>>)
 
 ExtraNext == TrCxhNew \/ TrCxhAssign \/ TrCxhReset \/ TrCxhAbsorb \/ TrCxhSqueeze \/ TrCxhPad \/ TrCxhDel \/ TrCxhDigest
-             \/ TrUtilFromHex \/ TrUtilToHex \/ TrUtilFromData \/ TrHexTo \/ TrHexFrom
+             \/ TrUtilFromHex \/ TrUtilToHex \/ TrUtilFromData \/ TrHexTo \/ TrHexFrom \/ TrUtilClean
 
 -----------------------------------------------------------------------------
 (* C20: the replacement byte_array.  objs maps a variable to its abstract  *)
